@@ -871,7 +871,7 @@ def check_pi_fine(ctx, rng, thorough):
     stop = False
     for i in range(L0 + 4):
       Li, bad = fine_case(ctx, n, e, bs, preempt={i})
-      for j in range(i + 1, Li + 4, 1 if thorough else 2):
+      for j in range(i + 1, Li + 4, 1 if thorough else 3):
         _, bad = fine_case(ctx, n, e, bs, preempt={i, j})
         ctx.count('pi_fine_runs', 'two preemptions')
         if bad:
@@ -879,7 +879,7 @@ def check_pi_fine(ctx, rng, thorough):
           break
       if stop:
         break
-  for k in range(1200 if thorough else 160):
+  for k in range(1200 if thorough else 100):
     n, bs = rng.choice([0, 1, 2, 3]), rng.choice([1, 2, 3])
     e = 'stop' if rng.random() < 0.3 else {'raises': rng.randrange(1, 60)}
     _, bad = fine_case(ctx, n, e, bs, rng=rng, p_switch=rng.choice([0.03, 0.1, 0.3]))
@@ -1464,7 +1464,7 @@ def check_reshape_helpers(ctx, drv, rng, n_random):
     return np.asarray(v).astype(np.float32) if not isinstance(v, jax.Array) else np.asarray(v.astype(jnp.float32))
 
   reqs, recs = [], []
-  sweep = [(i, True) for i in range(len(pairs))] + [(rng.randrange(len(pairs)), False) for _ in range(max(60, n_random // 2))]
+  sweep = [(i, True) for i in range(len(pairs))] + [(rng.randrange(len(pairs)), False) for _ in range(max(40, n_random // 3))]
   for pi_, fixed in sweep:
     n = rng.randrange(1, 7) if not fixed else 4
     shape = rng.choice([(), (3,), (2, 2), (1, 2, 3)]) if not fixed else (5,)
@@ -1543,7 +1543,7 @@ def scan_cases(rng, thorough):
   # negative and mixed axis entries (NumPy semantics -k = rank-k): every tuple of ranks 2 and 3 in every order with
   # every sign pattern; bodies whose output has the rank of the input (a negative axis is relative to the array it is
   # applied to, and transpose_out is applied to the result)
-  for shape in [(2, 3, 2), (3, 2)]:
+  for shape in [(2, 3, 2) if thorough else (1, 3, 2), (3, 2)]:  # pairwise distinct extents: a misplaced axis shows in the shape
     rank = len(shape)
     for k in range(1, rank + 1):
       for pos in itertools.permutations(range(rank), k):
@@ -1552,7 +1552,8 @@ def scan_cases(rng, thorough):
             axis = tuple(a - rank if sg else a for a, sg in zip(pos, signs))
             keepdims = len(cases) % 2 == 0
             cases.append((shape, axis, keepdims, 3 if keepdims else rng.choice([0, 3]), rng.randrange(0, 5)))
-            cases.append((shape, axis, not keepdims, 3, rng.randrange(0, 5)))
+            if thorough or len(cases) % 3 == 0:
+              cases.append((shape, axis, not keepdims, 3, rng.randrange(0, 5)))
   # rank 4, sampled axis tuples
   all4 = [axis for k in range(1, 5) for axis in itertools.permutations(range(4), k)]
   for axis in rng.sample(all4, 40 if thorough else 14):
